@@ -32,6 +32,9 @@ structure Settings where
   streaming : Bool
   lifetime : Int
   linger : Int
+  /-- the daemon is a subclass whose user hook `clientDisconnect(conn)` raises (the transport servers
+      call `_clientDisconnect` inside try/except and only log the error) -/
+  hookFails : Bool := false
   deriving DecidableEq, Repr
 
 /-- one value of `streaming_responses`: (client, timestamp, linger_timestamp, stream) -/
@@ -89,6 +92,7 @@ inductive Res where
   | raised (e : Nat)     -- the iterator's own exception
   | terminated           -- PyroError("item stream terminated")
   | ok                   -- returned None
+  | hookError            -- `_clientDisconnect` raised out of the user hook (logged by the transport server)
   deriving DecidableEq, Repr
 
 /-- server.py 806-815 -/
@@ -150,7 +154,9 @@ def step (cfg : Settings) (st : State) : Op → State × Res
   | .open conn d => doOpen cfg st conn d
   | .next id conn => doNext st id conn
   | .close id => (doClose st id, .ok)
-  | .disconnect conn => (doDisconnect cfg st conn, .ok)
+  -- server.py 526-540: the stream bookkeeping comes first, the user hook `self.clientDisconnect(conn)` is the
+  -- LAST statement (extracted fact): a failing hook cannot skip the bookkeeping
+  | .disconnect conn => (doDisconnect cfg st conn, if cfg.hookFails then .hookError else .ok)
   | .housekeeping => (doHousekeeping cfg st, .ok)
   | .tick dt => ({ st with now := st.now + dt }, .ok)
 
